@@ -1,0 +1,32 @@
+//go:build verif
+
+// Verification shim (property C11): read-only view of the policy versions the
+// accessor still retains. Add-only, compiled only with -tags verif.
+package config
+
+import "sort"
+
+// VerifC11Retained returns the retained PoliciesData objects in version order.
+func (txnPoliciesAccessor *TxnPoliciesAccessor) VerifC11Retained() []*PoliciesData {
+	txnPoliciesAccessor.mutex.RLock()
+	defer txnPoliciesAccessor.mutex.RUnlock()
+	versions := make([]int, 0, len(txnPoliciesAccessor.policiesVersions))
+	for version := range txnPoliciesAccessor.policiesVersions {
+		versions = append(versions, int(version))
+	}
+	sort.Ints(versions)
+	res := make([]*PoliciesData, 0, len(versions))
+	for _, version := range versions {
+		res = append(res, txnPoliciesAccessor.policiesVersions[PoliciesVersion(version)])
+	}
+	return res
+}
+
+// VerifC11IsAnchored reports whether the transaction currently has an anchored
+// version (statistics only).
+func (txnPoliciesAccessor *TxnPoliciesAccessor) VerifC11IsAnchored(txnID TxnID) bool {
+	txnPoliciesAccessor.mutex.RLock()
+	defer txnPoliciesAccessor.mutex.RUnlock()
+	_, found := txnPoliciesAccessor.txnVersions[txnID]
+	return found
+}
